@@ -40,6 +40,9 @@ class SDt:
     def sym_truth(self, E):
         return True
 
+    def sym_isinstance(self, run, t):
+        return getattr(t, "name", None) == "numpy.dtype"
+
     def sym_getitem(self, run, idx):
         if idx == "position":
             return SOpaque("subdtype", attrs={"shape": (DTYPE_DIM(self.tag),)})
@@ -406,6 +409,13 @@ KEY_RS = f"{EM}:Emulsion.remove_small"
 class RemoveSmallLoop(LoopSpec):
     """for i in reversed(range(len(self))): indices below the cursor are untouched, the tail is the filtered tail"""
 
+    threshold_name = "min_radius"
+
+    def measure(self, run, me, g):
+        """the quantity compared with the threshold, as a function of the ORIGINAL index"""
+        view = EmView(run, me.dim, me.cls_name, g["E0"])
+        return view.radius
+
     def init_ghost(self, run, env):
         me = env["self"]
         c = next(run.counter)
@@ -423,13 +433,14 @@ class RemoveSmallLoop(LoopSpec):
     def invariant(self, run, env, it, seq):
         me = env["self"]
         g = run.ghost["rs"]
-        view = EmView(run, me.dim, me.cls_name, g["E0"])
-        mr = to_real(env["min_radius"]) if not hasattr(env["min_radius"], "sign") else None
+        size = self.measure(run, me, g)
+        thr = env[self.threshold_name]
+        mr = to_real(thr) if not hasattr(thr, "sign") else None
         L0, n = g["L0"], to_z3(me.length)
         cur = L0 - it            # originals with index >= cur have been processed
         k, l = z3.Ints("sk sl")
         idx = g["idx"]
-        keep = (lambda j: view.radius(j) > mr) if mr is not None else (lambda j: z3.BoolVal(True))
+        keep = (lambda j: size(j) > mr) if mr is not None else (lambda j: z3.BoolVal(True))
         yield ("cursor and length", z3.And(it >= 0, it <= L0, n >= cur, n <= L0))
         if mr is not None:
             la = z3.Int("la")
